@@ -7,6 +7,8 @@
 //!         | "own_ds" (Dataset -> Dataset) | "inplace" (default_target + predict_inplace)
 //!         | "dirty" (as inplace, the target buffer pre-filled with garbage)
 //!         | "prefill" (as inplace, every entry of the target buffer pre-set to the valid label `pv`)
+//!         | "caller" (predict_inplace into a target the caller allocated himself: documented shape, layout `tl`,
+//!                     default values / garbage / a valid label)
 //!         | "row1p" (k-means: single-observation predict_inplace into a membership holding `pv`)
 //!         | "row1" (the model's single-observation API, one call per id)
 //!   ly  = "c" | "f" (column-major) | "rs" (every 2nd row of a bigger buffer) | "rev" (rows stored
@@ -201,6 +203,33 @@ impl Dirty for Array1<Pr> {
     }
 }
 
+/// a target buffer the CALLER allocates (documented shape, default values) in a given memory layout:
+/// "c" | "f" (column-major) | "rs" (every 2nd row of a larger buffer) | "rev" (negative row stride)
+/// | "cs" (every 2nd column of a larger buffer); for 1-D targets "f" and "cs" coincide with "c"
+trait Alloc {
+    fn alloc(n: usize, w: usize, tl: &str) -> Self;
+}
+impl<T: Clone + Default> Alloc for Array1<T> {
+    fn alloc(n: usize, _w: usize, tl: &str) -> Self {
+        match tl {
+            "rs" => Array1::default(2 * n).slice_move(s![..;2]),
+            "rev" => Array1::default(n).slice_move(s![..;-1]),
+            _ => Array1::default(n),
+        }
+    }
+}
+impl<T: Clone + Default> Alloc for Array2<T> {
+    fn alloc(n: usize, w: usize, tl: &str) -> Self {
+        match tl {
+            "f" => Array2::default((n, w).f()),
+            "rs" => Array2::default((2 * n, w)).slice_move(s![..;2, ..]),
+            "rev" => Array2::default((n, w)).slice_move(s![..;-1, ..]),
+            "cs" => Array2::default((n, 2 * w)).slice_move(s![.., ..;2]),
+            _ => Array2::default((n, w)),
+        }
+    }
+}
+
 /// float element types of the records
 trait Fl: linfa::Float {
     fn of(v: f64) -> Self;
@@ -285,10 +314,13 @@ struct Call {
     ly: String,
     ids: Vec<usize>,
     pv: i64, // "prefill" / "row1p": the label value the caller's output buffer holds before the call (-1: none)
+    // "caller": the target is allocated by the caller in layout `tl`; pv = -1 default values, -2 garbage, >= 0 that label
+    tl: String,
 }
 struct Inp {
     pool: Vec<Vec<i64>>,
     nf: usize,
+    w: usize,
     prog: Vec<Call>,
 }
 fn parse_inp(inp: &Value) -> Inp {
@@ -302,9 +334,11 @@ fn parse_inp(inp: &Value) -> Inp {
             ly: gets(c, "ly").to_string(),
             ids: ivec(&c["ids"]).into_iter().map(|x| x as usize).collect(),
             pv: c.get("pv").and_then(|x| x.as_i64()).unwrap_or(-1),
+            tl: c.get("tl").and_then(|x| x.as_str()).unwrap_or("c").to_string(),
         })
         .collect();
-    Inp { pool, nf, prog }
+    let w = inp.get("w").and_then(|x| x.as_i64()).unwrap_or(1) as usize;
+    Inp { pool, nf, w, prog }
 }
 
 fn call_event(k: usize, outs: Vec<Value>, w: usize, back: Option<(Value, bool)>) -> Value {
@@ -318,7 +352,7 @@ fn call_event(k: usize, outs: Vec<Value>, w: usize, back: Option<(Value, bool)>)
 type Row1<'a, F> = Option<&'a dyn Fn(ArrayView1<F>, i64) -> Value>;
 
 macro_rules! own_forms {
-    ($m:expr, $F:ty, $T:ty, $c:expr, $bk:expr, $n:expr, $ext:expr) => {{
+    ($m:expr, $F:ty, $T:ty, $c:expr, $bk:expr, $n:expr, $ext:expr, $w:expr) => {{
         let x: Array2<$F> = $bk.slice_move(slinfo(&$c.ly));
         match $c.fm.as_str() {
             "ref_arr" => {
@@ -349,12 +383,22 @@ macro_rules! own_forms {
                 PredictInplace::<Array2<$F>, $T>::predict_inplace($m, &x, &mut y);
                 (y.enc($ext), y.width(), None)
             }
+            "caller" => {
+                let mut y: $T = <$T as Alloc>::alloc($n, $w, &$c.tl);
+                if $c.pv == -2 {
+                    y.dirty();
+                } else if $c.pv >= 0 {
+                    y.prefill($c.pv);
+                }
+                PredictInplace::<Array2<$F>, $T>::predict_inplace($m, &x, &mut y);
+                (y.enc($ext), y.width(), None)
+            }
             other => panic!("harness: unknown form {}", other),
         }
     }};
 }
 macro_rules! view_forms {
-    ($m:expr, $F:ty, $T:ty, $c:expr, $bk:expr, $n:expr, $ext:expr) => {{
+    ($m:expr, $F:ty, $T:ty, $c:expr, $bk:expr, $n:expr, $ext:expr, $w:expr) => {{
         let x: ArrayView2<$F> = $bk.slice(slinfo(&$c.ly));
         match $c.fm.as_str() {
             "ref_arr" => {
@@ -380,6 +424,16 @@ macro_rules! view_forms {
                 if $c.fm == "dirty" {
                     y.dirty();
                 } else if $c.fm == "prefill" {
+                    y.prefill($c.pv);
+                }
+                PredictInplace::<ArrayView2<$F>, $T>::predict_inplace($m, &x, &mut y);
+                (y.enc($ext), y.width(), None)
+            }
+            "caller" => {
+                let mut y: $T = <$T as Alloc>::alloc($n, $w, &$c.tl);
+                if $c.pv == -2 {
+                    y.dirty();
+                } else if $c.pv >= 0 {
                     y.prefill($c.pv);
                 }
                 PredictInplace::<ArrayView2<$F>, $T>::predict_inplace($m, &x, &mut y);
@@ -413,9 +467,9 @@ macro_rules! run_prog {
                     return (x.outer_iter().map(|r| f(r, c.pv)).collect(), 1, None);
                 }
                 if c.st == "own" {
-                    own_forms!($m, $F, $T, c, bk, n, &ext)
+                    own_forms!($m, $F, $T, c, bk, n, &ext, $inp.w)
                 } else {
-                    run_prog!(@view $views, $m, $F, $T, c, bk, n, &ext)
+                    run_prog!(@view $views, $m, $F, $T, c, bk, n, &ext, $inp.w)
                 }
             });
             match r {
@@ -427,10 +481,10 @@ macro_rules! run_prog {
             }
         }
     }};
-    (@view true, $m:expr, $F:ty, $T:ty, $c:expr, $bk:expr, $n:expr, $ext:expr) => {
-        view_forms!($m, $F, $T, $c, $bk, $n, $ext)
+    (@view true, $m:expr, $F:ty, $T:ty, $c:expr, $bk:expr, $n:expr, $ext:expr, $w:expr) => {
+        view_forms!($m, $F, $T, $c, $bk, $n, $ext, $w)
     };
-    (@view false, $m:expr, $F:ty, $T:ty, $c:expr, $bk:expr, $n:expr, $ext:expr) => {
+    (@view false, $m:expr, $F:ty, $T:ty, $c:expr, $bk:expr, $n:expr, $ext:expr, $w:expr) => {
         panic!("harness: model has no view forms")
     };
 }
